@@ -77,6 +77,9 @@ func genC11(r *Rand, tier, profile string) *Case {
 	if r.Bool(0.15) {
 		c.Knobs["leave_spread_ms"] = 6000
 	}
+	if r.Bool(0.1) {
+		c.Knobs["leave_base_ms"] = int64(r.PickInt([]int{100, 300, 800}))
+	}
 	var ts []tstep
 	// witness on node 0: alive throughout, publishes at the end
 	ts = append(ts, tstep{1, Step{K: "connect", C: 0, N: 0, S: "witness", U: "u", T: "p", I: 3000}})
@@ -113,7 +116,7 @@ func genC11(r *Rand, tier, profile string) *Case {
 				ts = append(ts, tstep{t, Step{K: "pkt", C: i, S: "pingreq"}})
 			}
 		}
-		cause := r.Pick([]string{"", "disconnect", "cut", "close", "silence", "protoerr", "stopnode", "disconnect", "silence"})
+		cause := r.Pick([]string{"", "disconnect", "cut", "close", "silence", "protoerr", "stopnode", "disconnect", "silence", "writefail"})
 		if cause == "stopnode" && (node == 0 || stopped) {
 			cause = "cut"
 		}
@@ -127,6 +130,16 @@ func genC11(r *Rand, tier, profile string) *Case {
 			ts = append(ts, tstep{t, Step{K: "close", C: i}})
 		case "protoerr":
 			ts = append(ts, tstep{t, Step{K: "pkt", C: i, S: "connect"}})
+		case "writefail":
+			// the link dies while the broker answers a request: the request has been read and
+			// acted upon, its reply cannot be written
+			ts = append(ts, tstep{t, Step{K: "writefail", C: i}})
+			switch r.Intn(3) {
+			case 0:
+				ts = append(ts, tstep{t + 1, Step{K: "pkt", C: i, S: "pingreq"}})
+			default:
+				ts = append(ts, tstep{t + 1, Step{K: "sub", C: i, L: []string{fmt.Sprintf("d/%d/late", i), "d/all"}, QL: []int{0, 1}, I: pid}})
+			}
 		case "stopnode":
 			ts = append(ts, tstep{t, Step{K: "stopnode", N: node}})
 			stopped = true
@@ -156,7 +169,7 @@ func genC11(r *Rand, tier, profile string) *Case {
 			}
 		}
 		switch {
-		case x.s.K == "cut", x.s.K == "close", x.s.K == "pkt" && (x.s.S == "disconnect" || x.s.S == "connect"):
+		case x.s.K == "cut", x.s.K == "close", x.s.K == "writefail", x.s.K == "pkt" && (x.s.S == "disconnect" || x.s.S == "connect"):
 			term[x.s.C] = true
 		}
 	}
@@ -192,7 +205,7 @@ func finishLife(c *Case, ts []tstep, kOf map[int]int64) *Case {
 				continue
 			}
 			times = append(times, x.at)
-			if x.s.K == "cut" || x.s.K == "close" || (x.s.K == "pkt" && (x.s.S == "disconnect" || x.s.S == "connect")) {
+			if x.s.K == "cut" || x.s.K == "close" || x.s.K == "writefail" || (x.s.K == "pkt" && (x.s.S == "disconnect" || x.s.S == "connect")) {
 				dead = x.at
 			}
 		}
@@ -274,6 +287,9 @@ func (w *world) lifeFactsOf(cl *simClient) lifeFacts {
 		case s.K == "raw" && w.txStamp(si, cl.idx, 0) >= 0:
 			f.cause, f.causeAt, f.causeStep = "protoerr", w.stepAt[si], si
 		}
+	}
+	if cl.writeFailed && (f.cause == "" || cl.downAt < f.causeAt) {
+		f.cause, f.causeAt, f.causeStep = "cut", cl.downAt, -1
 	}
 	// silence takes precedence when the client had already been quiet for more than twice its
 	// keep-alive before the scripted cause (or there is none)
